@@ -11,20 +11,21 @@ Definition cmap {A B} (f : A -> B) (c : cst A) : cst B :=
   mkC (f (c_now c)) (f (c_rnd c)) (c_running c) (c_busy c) (c_depth c) (c_clean c)
       (option_map f (c_start c)) (option_map f (c_prev c)) (c_n c).
 
-Lemma cout_erase {A} k (c : cst A) (o : out A) :
-  cout aok_none k (cmap er c) (map_out er o) = option_map (cmap er) (cout aok_none k c o).
+Lemma cout_erase {A} (k : option (kind A)) (c : cst A) (o : out A) :
+  cout aok_none (option_map (map_kind er) k) (cmap er c) (map_out er o) = option_map (cmap er) (cout aok_none k c o).
 Proof.
   destruct o; simpl; try reflexivity.
   - destruct (c_running c); simpl; [|reflexivity].
     destruct (c_start c), (c_prev c); reflexivity.
   - destruct (c_busy c); reflexivity.
   - destruct (c_running c); simpl; [|reflexivity].
-    destruct (c_clean c && negb (c_depth c =? 0)); reflexivity.
+    destruct (c_clean c && negb (c_depth c =? 0)); [reflexivity|].
+    destruct k as [[| | |t]|]; reflexivity.
   - destruct (c_depth c), (c_busy c); reflexivity.
 Qed.
 
-Lemma couts_erase {A} k (os : list (out A)) : forall c,
-  couts aok_none k (cmap er c) (map (map_out er) os) = option_map (cmap er) (couts aok_none k c os).
+Lemma couts_erase {A} (k : option (kind A)) (os : list (out A)) : forall c,
+  couts aok_none (option_map (map_kind er) k) (cmap er c) (map (map_out er) os) = option_map (cmap er) (couts aok_none k c os).
 Proof.
   induction os as [|o os IH]; intro c; [reflexivity|].
   simpl. rewrite cout_erase. destruct (cout aok_none k c o); simpl; [apply IH|reflexivity].
@@ -41,13 +42,13 @@ Proof.
   induction evs as [|e evs IH]; intros c [|os tr]; try reflexivity.
   simpl. unfold cstep. rewrite cevent_erase.
   replace (match map_event er e with ERun k => Some k | _ => None end)
-    with (match e with ERun k => Some k | _ => None end) by (destruct e; reflexivity).
+    with (option_map (map_kind er) (match e with ERun k => Some k | _ => None end)) by (destruct e; reflexivity).
   rewrite couts_erase.
   destruct (couts aok_none _ (cevent c e) os); simpl; [apply IH|reflexivity].
 Qed.
 
 Lemma map_event_er {A B} (f : A -> B) (e : event A) : map_event er (map_event f e) = map_event er e.
-Proof. destruct e as [t|r|sk| | |k| ]; try reflexivity. destruct sk; reflexivity. Qed.
+Proof. destruct e as [t|r|sk| | |k| ]; try reflexivity; [destruct sk|destruct k]; reflexivity. Qed.
 
 Lemma map_out_er {A B} (f : A -> B) (o : out A) : map_out er (map_out f o) = map_out er o.
 Proof. destruct o; reflexivity. Qed.
